@@ -7,7 +7,8 @@
    [KnownClass d]: the description elaborates to a tree that is not [tree_ok].
    [f11c_shape d]: the narrow syntactic shape of the finding (what tools/props/c18.py `known_class` tests):
    some definition G with a type parameter T has, along its `inherit` chain, a definition with a submodule
-   field of type `T` (no arguments).  Every KnownClass description met by the check has this shape (the
+   field of type `T` (no arguments); or an instantiation `G(A1..An)` passes an argument named like a later type
+   parameter of G.  Every KnownClass description met by the check has this shape (the
    monitor raises a violation otherwise); KnownClass d -> f11c_shape d = true is not proved. *)
 From Coq Require Import List NArith Bool.
 From DesVerif Require Import Ndl.Bytes Ndl.Grammar Ndl.Def Ndl.Transform Ndl.Build Ndl.Denote Ndl.Realisable Ndl.BuildTotal.
@@ -27,11 +28,23 @@ Fixpoint chain_uses (d : Def) (fuel : nat) (binds : list Generic) (k : option id
   | _, _ => false
   end.
 
+(* second shape, same cause: in `x: G(A1..An)` an earlier argument A_i is named like a LATER type parameter of G; after
+   A_i's tree has been substituted its symbol matches that parameter and the loop replaces it again *)
+Fixpoint arg_named_like_later (reqs : list Generic) (args : list ident) : bool :=
+  match reqs, args with
+  | _ :: reqs', a :: args' => is_binding reqs' a || arg_named_like_later reqs' args'
+  | _, _ => false
+  end.
+
 Definition f11c_shape (d : Def) : bool :=
   existsb (fun im => match tc_args (fst im) with
                      | [] => false
                      | binds => chain_uses d (length (d_modules d)) binds (md_inherit (snd im))
-                     end) (d_modules d).
+                     end) (d_modules d) ||
+  existsb (fun im => existsb (fun st => match find_entry d (tc_ident (snd st)) with
+                                        | Some (g, _) => arg_named_like_later (tc_args g) (tc_args (snd st))
+                                        | None => false
+                                        end) (md_subs (snd im))) (d_modules d).
 
 (* outside the known class: when elaboration succeeds, every symbol is registered and the wiring is realisable
    (no statement connects a gate position to itself or gives one a third peer), the build succeeds *)
